@@ -161,7 +161,7 @@ func (pn *File) ToJSON(encoder *jbtf.Encoder) ([]byte, error) {
 		}
 	}
 
-	if schema.DefaultValue != nil {
+	if pn.DefaultValue != nil {
 		schema.DefaultValue = &jbtf.Bytes{
 			Data: pn.DefaultValue,
 		}
